@@ -12,6 +12,8 @@ TV(t) == CASE t.c.fam = "set" -> SetVerdict(Cfg0, t.c.toks, t.o)
            [] t.c.fam = "lock" -> LockVerdict(t.c, t.o)
            [] t.c.fam = "override" -> OverrideVerdict(t.c, t.o)
            [] t.c.fam = "gen" -> GenVerdict(t.c, t.o)
+           [] t.c.fam = "climerge" -> MergeVerdict(t.c, t.o)
+           [] t.c.fam = "runoverride" -> RunOverrideVerdict(t.c, t.o)
 Next == /\ verdict = "pending"
         /\ LET t == Traces[tid]  v == TV(t) IN
              /\ verdict' = v /\ (v # "ok" => PrintT(<<"REJECT", t.id, v>>))
